@@ -3,6 +3,7 @@ SPECIFICATION Spec
 CONSTANTS
   TxHolderCheck = FALSE
   UnsetFix = FALSE
+  CatchUpKeeps = FALSE
   GrantPins = TRUE
   IdemCheck = TRUE
   WaitPos = TRUE
